@@ -437,7 +437,16 @@ func (d *cnDriver) genVault(nonceBump map[string]uint64) []cnTxMeta {
 					an = nonce - 1
 				}
 			}
-			add(&cnTxSpec{Kind: "vauth", Signer: who, To: name, Amount: an, VAct: act, Fee: int64(d.rng.Intn(2)), Gas: 8000, Validity: validity})
+			gas := uint64(8000)
+			if d.rng.Intn(4) == 0 {
+				// enough for the transaction's bytes and the authorization itself, not (or just not) for what the action goes on to
+				// execute: the size is taken from a first build (gas limits of this magnitude encode in the same number of bytes)
+				probe := &cnTxSpec{Kind: "vauth", Signer: who, To: name, Amount: an, VAct: act, Nonce: uint64(d.acctField(who, "n")) + nonceBump[who], Gas: 5300, Validity: validity}
+				if raw, err := n.buildTx(probe, d.rng); err == nil {
+					gas = uint64(len(raw)) + 5000 + uint64(d.rng.Intn(14))
+				}
+			}
+			add(&cnTxSpec{Kind: "vauth", Signer: who, To: name, Amount: an, VAct: act, Fee: int64(d.rng.Intn(2)), Gas: gas, Validity: validity})
 			if d.rng.Intn(4) == 0 && len(admin) > 1 {
 				// the other admin authorizes the same action in the same block
 				other := admin[0]
